@@ -92,6 +92,7 @@ func TestC16(t *testing.T) {
 	for _, n := range topicNames {
 		add(Rpc{Kind: "getTopic", Name: n})
 		add(Rpc{Kind: "publishCheck", Name: n})
+		add(Rpc{Kind: "publishCheck", Name: n, Bad: true})
 		for _, has := range []bool{true, false} {
 			for _, paths := range [][]string{nil, {"labels"}, {"name"}, {"foo"}, {"labels", "labels"}, {"kms_key_name"}, {"labels", "foo"}} {
 				add(Rpc{Kind: "updateTopic", Has: has, Name: n, Labels: map[string]string{"a": "b"}, Paths: paths})
